@@ -22,7 +22,8 @@ def main(args):
     cdir = os.path.join(core.VERIF, "corpus")
     inc = corpus.generate_headers(sorted({specs.ALL[n].emb for n in STRUCTS}), cdir)
     try:
-        jobs = corpus.c20_jobs("corpus.specs", STRUCTS, inc)
+        from contracts import cpp_array
+        jobs = corpus.c20_jobs("corpus.specs", STRUCTS, inc) + cpp_array.jobs(args.tier)
         idx = viewcheck.wrapper_index(jobs)
         if args.replay:
             d = json.load(open(args.replay))
@@ -38,9 +39,10 @@ def main(args):
         shutil.rmtree(inc, ignore_errors=True)
     run.extra.update({"programs": len(STRUCTS), "disagreements_checked": sum(1 for o in run.obligations if o.verdict == core.REFUTED),
                       "structures": STRUCTS,
-                      "not_covered": ["programs outside the corpus", "array fields (element-wise equality)", "nested structures"]})
+                      "not_covered": ["programs outside the corpus", "array fields of generated structures (the array template itself is under contract with a harness element view)", "nested structures"]})
     for s in STRUCTS:
         run.function("generated %sView::{Equals,TryToCopyFrom} (%s)" % (s, specs.ALL[s].emb), "llvc: generated header vs reference semantics, all pairs of buffers")
+    run.function("emboss::support::GenericArrayView::{Equals,UncheckedEquals,Ok,ElementCount}", "llvc: real template over a harness element view with padding bits (contracts/cpp_array.py): Equals <=> same count and element-wise equal fields, arrays of <= 6 elements")
     run.function("emboss::support::ContiguousBuffer::TryToCopyFrom", "llvc (inlined into the generated TryToCopyFrom; memmove modelled with pre-state reads)")
     run.assume(*core.STANDING_ASSUMPTIONS["E2"])
     run.assume("the hand-written reference semantics (corpus/specs.py) is the oracle", "parameter values lie within their declared type")
